@@ -54,8 +54,12 @@ func lifeRuns(tier string) []base {
 			return flip(scLife(defaultParams(), []Template{tCapLow, tLong, tPoorOne}, AlphaOpts{RespKinds: []string{"ok", "bad"}, CtxOps: []string{"pause", "start", "kill"},
 				Updates: []CtxUpdate{updProvP2}, Withdraw: []string{"O2:"}}, d, b, m))
 		}},
-		{"price-subunit+zero", func() *Scenario { return scPrice(paramSet("0.1", "0.001"), "p1v", "p0", []Template{tOne, tRep2, tSuper}, mainO, d, b, m) }},
-		{"mod-main", func() *Scenario { return scMod(defaultParams(), []Template{tMod1, tModPoor, tModCap, tModHalf}, modO, d, b, m) }},
+		{"price-subunit+zero", func() *Scenario {
+			return scPrice(paramSet("0.1", "0.001"), "p1v", "p0", []Template{tOne, tRep2, tSuper}, mainO, d, b, m)
+		}},
+		{"mod-main", func() *Scenario {
+			return scMod(defaultParams(), []Template{tMod1, tModPoor, tModCap, tModHalf}, modO, d, b, m)
+		}},
 		{"msvc", func() *Scenario { return scMsvc(defaultParams(), d-1, b-1, m) }},
 		{"life-gov", func() *Scenario {
 			// governance changes the parameters in mid-flight: tax 0.1 -> 0.5, slash 0.001 -> 0.5, max timeout 3 -> 1
@@ -262,6 +266,25 @@ func init() {
 			{Name: "frequency-boundaries", Sc: withFunds(scLife(paramSet("0.1", "0.001"), []Template{tHuge, tMax, tBig, tOneTot}, AlphaOpts{CtxOps: []string{"pause", "start"}}, 5, 4, 2), 40, 5), Oracles: o},
 		}
 		runs = append(runs, runsOf(lifeRuns(tier), o, MonFlags{})...)
+		// the owning module, told that one context was paused for lack of funds, starts its other (paused) contexts from
+		// inside that state callback (both processing orders)
+		for _, fl := range []bool{false, true} {
+			sc := scMod(defaultParams(), []Template{tModPoor, tMod1, tMod2}, AlphaOpts{RespKinds: []string{"ok"}, ModOps: []string{"mpause"}}, d-1, b-1, m)
+			sc.Name, sc.Rig.ReentrantStartSiblings, sc.FlipIDs = "S-MOD(start siblings in callback)", true, fl
+			runs = append(runs, RunSpec{Name: fmt.Sprintf("mod-start-siblings-in-callback(flip=%v)", fl), Sc: sc, Oracles: o})
+		}
+		// governance lifts the timeout bound to the largest value the parameter store accepts; calls then use it
+		{
+			g := paramSet("0.1", "0.001")
+			g.MaxTimeout, g.Name = 1<<63-1, "gov-max-timeout-maxint64"
+			g62 := paramSet("0.1", "0.001")
+			g62.MaxTimeout, g62.Name = 1<<62, "gov-max-timeout-2^62"
+			tm := []Template{{Name: "tmaxone", Consumer: "C1", Service: "a", Providers: []string{"P1"}, Cap: 5, Timeout: 1<<63 - 1},
+				{Name: "tmaxrep", Consumer: "C1", Service: "a", Providers: []string{"P2"}, Cap: 5, Timeout: 1<<63 - 1, Repeated: true, Freq: 0, Total: 2},
+				{Name: "t62one", Consumer: "C1", Service: "a", Providers: []string{"P1"}, Cap: 5, Timeout: 1 << 62},
+				{Name: "t62rep", Consumer: "C1", Service: "a", Providers: []string{"P2"}, Cap: 5, Timeout: 1 << 62, Repeated: true, Freq: 0, Total: 2}}
+			runs = append(runs, RunSpec{Name: "gov-max-timeout-extremes", Sc: withFunds(scLife(paramSet("0.1", "0.001"), tm, AlphaOpts{RespKinds: []string{"ok"}, CtxOps: []string{"pause", "start"}, ParamChanges: []ParamSet{g, g62}}, 6, 4, 3), 40, 5), Oracles: o})
+		}
 		// the owning module starts a context again from inside the "paused: insufficient balances" state callback
 		runs = append(runs, RunSpec{Name: "mod-restart-in-callback", Sc: scModRestart(defaultParams(), []Template{tMod1, tModPoor},
 			AlphaOpts{RespKinds: []string{"ok"}, ModOps: []string{"mpause", "mstart"}}, d-1, b-1, m), Oracles: o, Mon: MonFlags{Restart: true}})
@@ -426,7 +449,11 @@ func init() {
 			{Name: "mod-export-points", Sc: scMod(defaultParams(), []Template{tMod1, tModPoor}, AlphaOpts{RespKinds: []string{"ok"}, ModOps: []string{"mpause", "mkill"}}, 6+d, 4, 2), Oracles: o, Post: genesisPost},
 			// deposits slashed to exactly nothing: slash fraction 1, and a slash after the deposit was taken back
 			{Name: "slash-all-export-points", Sc: scBind(paramSet("0.5", "1"), bindOpsSmall(), []Template{tSlash2}, []string{"bad"}, 5+d, 3, 2), Oracles: o, Post: genesisPost},
-			func() RunSpec { r := slashAfterRefundRun(o, MonFlags{}); r.Name, r.Post = "slash-after-refund-export-points", genesisPost; return r }(),
+			func() RunSpec {
+				r := slashAfterRefundRun(o, MonFlags{})
+				r.Name, r.Post = "slash-after-refund-export-points", genesisPost
+				return r
+			}(),
 		}
 	}, Pure: paramGrid})
 	register(&CheckSpec{Prop: "C20", Runs: func(tier string) []RunSpec {
@@ -447,6 +474,12 @@ func init() {
 			RunSpec{Name: "names-panics", Sc: scNames(defaultParams(), 6+d, 3, 4), Oracles: o, DetCheck: true},
 			RunSpec{Name: "huge-values", Sc: scHuge(defaultParams(), 6+d, 4, 2), Oracles: o, DetCheck: true},
 			func() RunSpec { r := priceFractionsRun(o, MonFlags{}, 7+d, 4, 2); r.DetCheck = true; return r }(),
+			// a module that re-asks from inside its response callback (also when that callback runs at end of block)
+			func() RunSpec {
+				sc := scMod(defaultParams(), []Template{tMod1, tMod2}, AlphaOpts{RespKinds: []string{"ok", "bad"}}, 6+d, 4, 2)
+				sc.Name, sc.Rig.ReentrantCreate = "S-MOD(create in callback)", true
+				return RunSpec{Name: "mod-create-in-callback", Sc: sc, Oracles: o, DetCheck: true}
+			}(),
 			RunSpec{Name: "genesis-import-orders", Sc: withFunds(scLife(paramSet("0.1", "0.001"), []Template{tRep2, tInf}, AlphaOpts{CtxOps: []string{"pause"}, SetW: []string{"O1:W1", "O2:W1"}}, 4+d, 2, 4), 40, 5),
 				Oracles: o, Post: mapGenesisPost, Conform: -1},
 		)
@@ -470,7 +503,6 @@ func bindOpsSmall() []Action {
 		actUpdate("a", "P1", "O1", 30, "", 0),
 	}
 }
-
 
 // The boundary-input grid (S-INPUT) also evaluates the state invariants of these properties on every state a
 // boundary-shaped message reaches.
